@@ -150,6 +150,16 @@ func (c *verifK11Clock) still() {
 	}
 }
 
+// verifK11ControllerTTL: the controller's minimum refresh interval only decides whether the final request ALSO
+// starts a background refresh (which cannot influence that request's answer). ctl=1: arbitrary; default: a
+// concrete interval longer than the timeline, which halves the number of paths.
+func verifK11ControllerTTL() time.Duration {
+	if vt.ParamInt("ctl", 0) == 1 {
+		return time.Duration(vt.IntRange("controller-ttl", 0, 1<<40))
+	}
+	return time.Duration(1 << 50)
+}
+
 // ttl: a cache TTL. general mode: any positive duration up to ~18 minutes (symbolic); grid mode: (K+1/2) units.
 func (c *verifK11Clock) ttl(name string, param string, def int) time.Duration {
 	if c.grid {
@@ -170,6 +180,11 @@ type verifK11Datastore struct {
 func (d *verifK11Datastore) ReadChanges(ctx context.Context, store string, f storage.ReadChangesFilter, o storage.ReadChangesOptions) ([]*openfgav1.TupleChange, string, error) {
 	d.calls++
 	vt.Assert(o.SortDesc && o.Pagination.From == "" && f.ObjectType == "", "controller does not ask for the most recent page of all changes")
+	if d.calls > 1 {
+		// a refresh triggered by the scenario's final request: it runs after the request was answered and is not
+		// part of the claim; it fails fast (which condemns the store's iterator entries and nothing else)
+		return nil, "", errVerifK11
+	}
 	// everything on the page was committed before it is read
 	vt.Assume(!d.newest.After(time.Now()))
 	if d.err != nil {
@@ -210,8 +225,15 @@ func verifK11Page(clk *verifK11Clock, n, w int, tw time.Time, wk *openfgav1.Tupl
 		if vt.Bool("change-is-delete" + id) {
 			op = openfgav1.TupleOperation_TUPLE_OPERATION_DELETE
 		}
-		out[i] = &openfgav1.TupleChange{Operation: op, Timestamp: timestamppb.New(ts[i]), TupleKey: &openfgav1.TupleKey{
-			Object: objs[vt.Pick("change-object"+id, 3)], Relation: rels[vt.Pick("change-relation"+id, 2)], User: users[vt.Pick("change-user"+id, 3)]}}
+		// the other change concerns the same tuple as the write (e.g. its earlier delete) or, by default, an
+		// unrelated one; vocab=1 draws object, relation and user from small vocabularies instead
+		otk := &openfgav1.TupleKey{Object: "e:1", Relation: "q", User: "u:9"}
+		if vt.ParamInt("vocab", 0) == 1 {
+			otk = &openfgav1.TupleKey{Object: objs[vt.Choose("change-object"+id, 3)], Relation: rels[vt.Choose("change-relation"+id, 2)], User: users[vt.Choose("change-user"+id, 3)]}
+		} else if vt.Choose("change-same-tuple"+id, 2) == 1 {
+			otk = &openfgav1.TupleKey{Object: wk.GetObject(), Relation: wk.GetRelation(), User: wk.GetUser()}
+		}
+		out[i] = &openfgav1.TupleChange{Operation: op, Timestamp: timestamppb.New(ts[i]), TupleKey: otk}
 	}
 	for i := 1; i < n; i++ {
 		vt.Assume(!ts[i].After(ts[i-1])) // descending
@@ -302,7 +324,7 @@ func verifK11QueryScenario() (stale bool) {
 	jitter := uint32(vt.ParamInt("jitter", 0))
 	qttl := clk.ttl("query-ttl", "qttl", 20)
 	ittl := clk.ttl("iterator-ttl", "ittl", 20)
-	ctlTTL := time.Duration(vt.IntRange("controller-ttl", 0, 1<<40))
+	ctlTTL := verifK11ControllerTTL()
 	cache := &verifK11Cache{}
 	ds := &verifK11Datastore{}
 	cc := cachecontroller.NewCacheController(ds, cache, ctlTTL, qttl, ittl)
@@ -415,7 +437,10 @@ func verifK11IteratorScenario() (stale bool) {
 	if impl < 0 {
 		impl = vt.Choose("impl", 2)
 	}
-	api := vt.Choose("api", 3)
+	api := vt.ParamInt("api", -1)
+	if api < 0 {
+		api = vt.Choose("api", 3)
+	}
 	qttl := clk.ttl("query-ttl", "qttl", 20)
 	ittl := clk.ttl("iterator-ttl", "ittl", 20) // the controller's iterator TTL (checkIteratorCache.ttl)
 	ettl := ittl                               // the TTL the entries are stored with
@@ -423,7 +448,7 @@ func verifK11IteratorScenario() (stale bool) {
 		// the ListObjects iterator cache has its own TTL setting (listObjectsIteratorCache.ttl)
 		ettl = clk.ttl("entry-ttl", "ettl", 30)
 	}
-	ctlTTL := time.Duration(vt.IntRange("controller-ttl", 0, 1<<40))
+	ctlTTL := verifK11ControllerTTL()
 	cache := &verifK11Cache{}
 	cds := &verifK11Datastore{}
 	cc := cachecontroller.NewCacheController(cds, cache, ctlTTL, qttl, ittl)
